@@ -80,6 +80,7 @@ static void mu_thread (int me) {
 }
 MC_ORACLE static void mu_final (void) {
 	mc_assert (datum == writes (), "lost update: %d write sections completed but the datum is %d", writes (), datum);
+	h_mu_idle (&mu);
 	h_outcome_results ();
 }
 extern const struct mc_family fam_mu;
